@@ -69,7 +69,7 @@ def strategy(tier: str):
             "wakes": st.lists(st.sampled_from((1, 1, 2)), min_size=1, max_size=4),
             "faults": st.lists(st.integers(0, 7), max_size=4, unique=True).map(sorted),
             "fault_class": st.sampled_from(("failed", "failed", "base", "read")),
-            "reconnect": st.booleans(),
+            "reconnect": st.sampled_from((False, False, True, "with-exc")),
             "between": st.one_of(st.just([]), st.lists(st.sampled_from(BETWEEN), min_size=1, max_size=2)),
             "wake_payloads": st.one_of(st.just(["5"]), st.lists(st.sampled_from(("0", "1", "5", "7", "100", "65535", "500", "3")), min_size=1, max_size=4)),
         }
@@ -90,6 +90,11 @@ def enumerate_cases(tier: str):
         for payloads in (["100", "7"], ["7", "100"], ["5", "5"], ["100", "7", "8", "3"], ["0", "65535", "0"], ["500", "1"]):
             for faults in ([0], [1], [0, 2]):
                 yield {"version": version, "parked": [[1, 0, 0, "v0"], [1, 1, 0, "v1"], [2, 0, 0, "v2"]], "wakes": [1, 1], "faults": faults, "fault_class": "failed", "wake_payloads": payloads}
+    # MQTT: the broker connection is lost while a wake is already queued; the release meets a dead client; reconnect; wake again
+    for version in ("2.0", "2.2"):
+        for parked in (1, 2, 3):
+            for order in ("wake-then-loss", "loss-then-wake"):
+                yield {"kind": "mqtt", "version": version, "parked": parked, "order": order}
     # the link dies (ETIMEDOUT, EPIPE, reset...) while the k-th command of a flush is being written; reconnect, wake again
     import errno as _errno
 
@@ -102,7 +107,7 @@ def enumerate_cases(tier: str):
     for version in ("2.0", "2.2") if tier == "quick" else ("2.0", "2.1", "2.2"):
         for line in BETWEEN:
             for faults in ([0], [1]):
-                for reconnect in (False, True):
+                for reconnect in (False, True, "with-exc"):
                     yield {"version": version, "parked": [[1, 0, 0, "v0"], [1, 1, 0, "v1"], [2, 0, 0, "v2"]], "wakes": [1], "faults": faults,
                            "fault_class": "failed", "reconnect": reconnect, "between": [line]}
     versions = ("2.0", "2.1", "2.2") if tier == "thorough" else ("2.1", "2.2")
@@ -346,7 +351,106 @@ def _run_memstream(case: dict) -> Outcome:
     return Outcome(ok=True, nontrivial=True, classes=classes)
 
 
+def _run_mqtt(case: dict) -> Outcome:
+    """The same law on an MQTTClient whose broker connection is lost around a wake (aiomqtt's message iterator dies with MqttError)."""
+    import asyncio
+
+    from aiomysensors.exceptions import AIOMySensorsError
+    from aiomysensors.gateway import Gateway
+    from aiomysensors.transport.mqtt import MQTTClient
+
+    from vf.props import c18
+    from vf.vloop import Deadlock, run_virtual
+
+    version = case["version"]
+    wake_type = 32 if version == "2.2" else 22
+    keys = ((0, 0), (1, 0), (0, 2))[: case["parked"]]
+
+    async def go() -> Outcome | None:
+        broker = c18.FakeBroker()
+        c18._patch(broker)
+        transport = MQTTClient("broker.invalid", 1883, "gw-out", "gw-in")
+        gateway = Gateway(transport)
+        gateway.protocol_version = version
+        env.install_registry(gateway.nodes, REGISTRY)
+        await transport.connect()
+        for i, (c, t) in enumerate(keys):
+            await gateway.send(env.mk_message([1, c, 1, 0, t, f"v{i}"]))
+        if broker.published:
+            return Outcome(ok=True, classes=("diverged-elsewhere",))
+
+        async def listen_once():
+            agen = gateway.listen()
+            try:
+                return "ok", await asyncio.wait_for(agen.__anext__(), 5.0)
+            except asyncio.TimeoutError:
+                return "nothing", None
+            except AIOMySensorsError as err:
+                return "liberr", err
+            except Exception as err:  # noqa: BLE001
+                return "leak", err
+            finally:
+                await agen.aclose()
+
+        if case["order"] == "wake-then-loss":
+            broker.deliver(f"gw-out/1/255/3/0/{wake_type}", b"5", 0)
+            for _ in range(4):
+                await asyncio.sleep(0)
+            broker.break_connection()
+        else:
+            broker.break_connection()
+            for _ in range(4):
+                await asyncio.sleep(0)
+        for _ in range(4):
+            await asyncio.sleep(0)
+        reported = False
+        for _ in range(3):
+            status, value = await listen_once()
+            if status == "leak":
+                return fail(f"leak:{env.exc_sig(value)}", f"broker connection lost around a wake: {value!r}")
+            if status == "liberr":
+                reported = True
+            if status == "nothing":
+                break
+        during_loss = len(broker.published)
+        if not reported:
+            return fail("mqtt:loss-not-reported", "the broker connection was lost but no listen call reported it")
+        try:
+            await transport.disconnect()
+            await transport.connect()
+        except Exception as err:  # noqa: BLE001
+            return fail(f"mqtt:reconnect-raises:{type(err).__name__}", f"{err!r}")
+        for _ in range(3):
+            broker.deliver(f"gw-out/1/255/3/0/{wake_type}", b"6", 0)
+            status, value = await listen_once()
+            if status not in ("ok",):
+                return fail("mqtt:wake-after-reconnect-raised", f"after the reconnect the wake gave {status} {value!r}")
+        lines = [f"gw-in/1/{c}/1/0/{t}" for c, t in keys]
+        topics = [topic for topic, _p, _q, _r in broker.published]
+        for topic in lines:
+            if topics.count(topic) == 0:
+                return fail("mqtt:command-lost", f"connection lost ({case['order']}); {during_loss} publishes reached the broker before the reconnect; after reconnect and three wakes the broker has {topics!r}, never {topic!r}")
+            if topics.count(topic) > 1:
+                return fail("mqtt:command-repeated", f"the broker received {topic!r} {topics.count(topic)} times: {topics!r}")
+        await transport.disconnect()
+        return None
+
+    try:
+        bad, _loop = run_virtual(go)
+    except Deadlock:
+        bad = fail("deadlock", "the event loop has nothing left to run")
+    classes = ("mqtt-kind", f"version={version}", case["order"])
+    if bad is not None:
+        if bad.ok:
+            return bad
+        bad.classes = classes
+        return bad
+    return Outcome(ok=True, nontrivial=True, classes=classes)
+
+
 def run_case(case: dict) -> Outcome:
+    if case.get("kind") == "mqtt":
+        return _run_mqtt(case)
     if case.get("kind") == "memstream":
         return _run_memstream(case)
     if case.get("kind") == "race":
@@ -393,8 +497,12 @@ def run_case(case: dict) -> Outcome:
                 return fail(f"leak:{env.exc_sig(value)}", f"{where}: {value!r}")
             failed = [l for _s, l, f in step_attempts if f]
             if failed and case.get("reconnect"):
-                # the application reacts to the transport error the way the README suggests: leave the context, enter it again
-                await gateway.__aexit__(None, None, None)
+                # the application reacts to the transport error the way the README suggests: leave the context, enter it again -
+                # either it caught the error inside the block, or ("with-exc") the error itself leaves the `async with` block
+                if case["reconnect"] == "with-exc" and isinstance(value, BaseException):
+                    await gateway.__aexit__(type(value), value, value.__traceback__)
+                else:
+                    await gateway.__aexit__(None, None, None)
                 await gateway.__aenter__()
             if failed:
                 info["faults_hit"] += 1
